@@ -132,6 +132,8 @@ pub struct SchemaGen<'r> {
 	pub wild: bool,
 	/// include decimal logical types (they need the decimal oracle for str/f64 presentations)
 	pub decimals: bool,
+	/// keep decimals within the documented limits (fixed size 1..16, scale ≤ 28)
+	pub decimal_limits: bool,
 }
 
 const NAMESPACES: [&str; 5] = ["", "", "a", "a.b", "c"];
@@ -145,6 +147,7 @@ impl<'r> SchemaGen<'r> {
 			next_name: 0,
 			wild,
 			decimals: true,
+			decimal_limits: false,
 		}
 	}
 
@@ -198,13 +201,13 @@ impl<'r> SchemaGen<'r> {
 				self.push(Reg::Fixed(name, size), None)
 			}
 			10 if self.decimals => {
-				let scale = *[0u32, 0, 1, 2, 5, 10, 28, 38, 39].choose(self.rng).unwrap();
+				let scale = if self.decimal_limits { *[0u32, 0, 1, 2, 5, 10, 28].choose(self.rng).unwrap() } else { *[0u32, 0, 1, 2, 5, 10, 28, 38, 39].choose(self.rng).unwrap() };
 				self.push(Reg::Bytes, Some(Logical::Decimal(scale, 20)))
 			}
 			11 if self.decimals => {
 				let name = self.fresh_name();
 				let scale = *[0u32, 0, 1, 2, 5].choose(self.rng).unwrap();
-				let size = *[0usize, 1, 2, 3, 4, 8, 15, 16, 17, 20].choose(self.rng).unwrap();
+				let size = if self.decimal_limits { *[1usize, 2, 3, 4, 8, 15, 16].choose(self.rng).unwrap() } else { *[0usize, 1, 2, 3, 4, 8, 15, 16, 17, 20].choose(self.rng).unwrap() };
 				self.push(Reg::Fixed(name, size), Some(Logical::Decimal(scale, 20)))
 			}
 			12 => self.push(Reg::String, Some(Logical::Uuid)),
@@ -593,6 +596,7 @@ impl<'a> ValueGen<'a> {
 			Kind::Bytes => match if ex { rng.gen_range(0..5) } else { 0 } {
 				0 => SV::Bytes(gen_bytes(rng)),
 				1 => SV::Str(gen_utf8(rng)),
+				2 | 3 if !self.allow_slow && self.by_name_only => SV::Bytes(gen_bytes(rng)),
 				2 => {
 					let b = gen_bytes(rng);
 					let len = if rng.gen_bool(0.5) { Some(b.len()) } else { None };
@@ -760,6 +764,7 @@ impl<'a> ValueGen<'a> {
 			}
 			Kind::Fixed(_, size) => match if ex { rng.gen_range(0..4) } else { 0 } {
 				0 => SV::Bytes((0..*size).map(|_| rng.gen()).collect()),
+				2 | 3 if !self.allow_slow && self.by_name_only => SV::Bytes((0..*size).map(|_| rng.gen()).collect()),
 				1 => SV::Str((0..*size).map(|_| (b'a' + rng.gen_range(0..26)) as char).collect()),
 				2 => SV::Seq(
 					if rng.gen_bool(0.5) { Some(*size) } else { None },
@@ -768,21 +773,28 @@ impl<'a> ValueGen<'a> {
 				_ => SV::Tuple((0..*size).map(|_| SV::Int(IntTy::I64, BigI::Pos(rng.gen::<u8>() as u128))).collect()),
 			},
 			Kind::Decimal(scale, fixed, _) => {
-				// integers only here (pure arithmetic); str / f64 go through the decimal oracle
-				let lim: i128 = match fixed {
-					Some(sz) if *sz < 16 => (1i128 << (8 * (*sz).max(1) - 1).min(120)) - 1,
-					_ => (1i128 << 100) - 1,
+				// choose the unscaled value within the fixed size and the 96-bit mantissa
+				let bits = match fixed {
+					Some(sz) if *sz < 12 => 8 * (*sz).max(1) as u32 - 1,
+					_ => 95,
 				};
-				let pow = 10i128.checked_pow((*scale).min(20)).unwrap();
-				let v = gen_int_in(rng, -lim / pow, lim / pow);
-				if !self.no_decimal_oracle && rng.gen_bool(0.5) {
-					let s = dec_string(rng, v, *scale);
-					return SV::Str(s);
+				let lim: i128 = (1i128 << bits) - 1;
+				let u = gen_int_in(rng, -lim - 1, lim);
+				let pow = 10i128.checked_pow(*scale);
+				let integral = pow.map_or(false, |p| u % p == 0);
+				if integral && (self.no_decimal_oracle || rng.gen_bool(0.5)) {
+					return self.int_sv(u / pow.unwrap());
 				}
-				if !self.no_decimal_oracle && rng.gen_bool(0.15) {
-					return SV::F64((v as f64 / 4.0).to_bits());
+				if self.no_decimal_oracle {
+					// integers only: pick a multiple
+					let p = pow.unwrap_or(1).max(1);
+					let v = if p > lim { 0 } else { gen_int_in(rng, -(lim / p), lim / p) };
+					return self.int_sv(v);
 				}
-				self.int_sv(v)
+				if *scale <= 28 {
+					return SV::Str(dec_string(rng, u, *scale));
+				}
+				self.int_sv(0)
 			}
 			Kind::BigDecimal => {
 				let v = gen_int_in(rng, -(1i128 << 95), 1i128 << 95);
